@@ -155,6 +155,14 @@ def handle(tok):
         m = mk_rx(tok[1:12])
         m.parse_msg(bytearray(octets(tok[12])))
         return ok(show_rx(m))
+    if verb == "trxd.tx.rt":
+        m = TxMsg()
+        m.parse_msg(mk_tx(tok[2:]).gen_msg(tok[1] == "1"))
+        return ok(show_tx(m))
+    if verb == "trxd.rx.rt":
+        m = RxMsg()
+        m.parse_msg(mk_rx(tok[2:]).gen_msg(tok[1] == "1"))
+        return ok(show_rx(m))
     if verb == "trxd.tx.trans":
         return ok(show_rx(mk_tx(tok[2:]).trans(opt_int(tok[1]))))
     if verb == "trxd.rx.trans":
